@@ -11,6 +11,15 @@ META = {
             "(extract/precedence -> Csvq/Gen/Precedence.lean, fails closed), the model parser is precedence climbing driven by that table with yacc's conflict-resolution rule, and "
             "parse(print e) = e is proved for every tree the parser can build (WellFormed, any depth), WellFormed is proved exact (everything parse returns is well formed), the regenerated "
             "levels are checked against the reviewed order; tied to the real parser by stream op c18.opx (tree shape and printed tokens, valid and invalid token lists). "
+            "Since wave 17 the fragment also holds the forms whose shift/reduce decisions are NOT those of a binary operator (same model, same theorems, trees of any depth; Args is a mutual list type): "
+            "value NOT LIKE value (NOT is shifted or not by ITS declared level 7, the right operand is read with the level of LIKE: a = b NOT LIKE c is (a = b) NOT LIKE c, a NOT LIKE b = c a syntax error), "
+            "value [NOT] BETWEEN value AND value (the rule has no %prec, hence the level of its last terminal AND: the upper bound takes every tighter operator, a BETWEEN b AND c = d is a BETWEEN b AND (c = d), a following AND / OR ends it; "
+            "the lower bound is read with no rule pending but ends at the first AND its own loop meets, so a BETWEEN b OR c AND d is a syntax error and a lower bound that is itself a logical AND must be a Parentheses node), "
+            "value [NOT] IN (value, ...), function calls f(value, ...) / f(), CURSOR c IS [NOT] OPEN | IN RANGE and CURSOR c COUNT; the productions of the NOT forms / BETWEEN / IN are REGENERATED from parser.y "
+            "(negatedOps, betweenOps, inOps of Gen/Precedence.lean; gen_not_forms_levels pins them and the levels the model decides with), the printers of Between, In, Like, RowValue, ValueList, Function, CursorStatus, CursorAttrebute "
+            "are pinned part by part against the regenerated String() sequences (gen_expression_printers_match_model); op_print_parse / op_parse_wellformed / op_parse_print_parse / op_print_idempotent / args_print_parse cover all of them, "
+            "between_low_and_needs_parentheses shows the hypothesis is needed; stream op c18.opx now generates every one of these forms (nested, undamaged and damaged) and compares tree shape, printed tokens and accept/reject with the real parser. "
+            "Still by correspondence only: CASE, sub-queries in expressions (scalar, IN, EXISTS, ANY / ALL), row values, aggregate / analytic / list functions, SUBSTRING ... FROM ... FOR. "
             "the CLAUSE SKELETON OF SELECT is in the model too (Model/Clause.lean): DISTINCT, items (expr [AS alias] | * | t.*), FROM with aliases and join chains (INNER / LEFT / RIGHT / FULL [OUTER] / CROSS / NATURAL, ON | USING), "
             "WHERE, GROUP BY, HAVING, ORDER BY items with direction and NULLS position, LIMIT (unit, ONLY | WITH TIES), OFFSET: parseSelect(printSelect s ++ rest) = (s, rest) is proved for every well-formed query "
             "(select_print_parse), parseSelect is total and consumes tokens (parse_total), print-parse-print is idempotent, printSelect is tied clause by clause to the regenerated String() sequences; "
@@ -33,7 +42,7 @@ META = {
             "the least solution 'types of a symbol' is a certificate Lean re-checks (closed under every source of every action; every assertion satisfied by every type of its operand's symbol, nil only where the action excluded it: lalr_action_assertions_typed), "
             "and typed_stack_invariant proves for ALL token lists, all fuel and EVERY choice the actions make (an oracle) that each stack value has a type of the symbol its state was entered on - from table facts inside lalr_tables_wf: a reduction by p pops states entered on exactly the symbols of p "
             "(the right-hand sides are a certificate checked against yyChk for every state that can lie at that depth), the goto pushes a state entered on p's nonterminal; hence lalr_actions_never_panic and parse_never_panics (driver + actions: accept or a syntax error inside the input, nothing else); the index / slice expressions of the actions are each under a length test of the same action (extractor's guard analysis) except Literal[0] of a PLACEHOLDER token, in range by scan_placeholder_literal_nonempty (scanner model, all rune strings); pinned: gen_action_index_sites_reviewed / _callees_ / _helpers_. "
-            "PARTIAL: the rest of the grammar layer (other statements, set operators, sub-selects, INTO / WITH / FOR UPDATE / FETCH / LATERAL, BETWEEN / IN / NOT LIKE / ANY / ALL / row values, functions; the BODIES of the semantic actions, that the goyacc tables implement the grammar of parser.y, the other String() methods) is not modelled - "
+            "PARTIAL: the rest of the grammar layer (other statements, set operators, sub-selects, INTO / WITH / FOR UPDATE / FETCH / LATERAL, CASE, sub-queries inside expressions (scalar / IN / EXISTS / ANY / ALL), row values, aggregate / analytic / list functions and SUBSTRING FROM FOR; the BODIES of the semantic actions, that the goyacc tables implement the grammar of parser.y, the other String() methods) is not modelled - "
             "parser.Parse totality, error positions, print/parse fixpoint and evaluation agreement are validated by correspondence only "
             "(corpus + grammar-aware mutation + generated queries, all four prepared x ansi-quotes modes)",
     "design_ref": "DESIGN.md section 5, C18",
@@ -82,10 +91,10 @@ def run(run):
              "a clause matrix covering every combination of the optional parts of each production (order item direction x NULLS position, LIMIT/FETCH x unit x restriction x OFFSET, DISTINCT, IGNORE NULLS, WITHIN GROUP, frames, join kind x NATURAL/USING/ON x LATERAL, set operators x ALL, WITH, FOR UPDATE, INTO; measured per parsed tree in stats clause:*), "
              "evaluation agreement on two tables with NULLs and duplicates; String() -> Parse -> String() fixpoint for every text that parses to one query expression, evaluation agreement for generated constant queries; "
              "goyacc driver (op c18.lalr): every text of (b) in its mode, plus token-level damage with the whole vocabulary of the grammar (every keyword, literal class and punctuation: delete / repeat / swap / replace / insert / shuffle a window / cut short, and pure token soup) - the real scanner's token codes go to the model, the real parser's verdict, offending token and reduction trace are compared; stats lalr:accept / lalr:syntax-error, lalr.productions_reduced of lalr.productions_total; "
-             "operator expressions: random trees of the fragment written down without added parentheses (depth <= 5) plus damaged token lists, real parser + String() against the model's parse / print; non-trivial = distinct (mode, token-kind sequence, outcome / statement types) or (rune classes, length band) or unary tree shape",
+             "operator expressions: random trees of the fragment (binary / prefix / IS / NOT LIKE / [NOT] BETWEEN / [NOT] IN lists of 1-3 values / calls with 0-3 arguments / CURSOR status and COUNT) written down without added parentheses (depth <= 5) plus damaged token lists (delete / duplicate / swap / insert, also NOT BETWEEN IN LIKE , CURSOR OPEN RANGE) and ~100 witnesses of the precedence interplay, real parser + String() against the model's parse / print; non-trivial = distinct (mode, token-kind sequence, outcome / statement types) or (rune classes, length band) or unary tree shape",
         trusted_base=BASE_TRUST + [
             "unicode.IsLetter/IsDigit tables (parameters of the theorems; driver instance = the toolchain's own tables, regenerated on every C06 run and compared rune by rune with package unicode by stream c06.uclass)",
-            "extract/precedence (reads parser.y as text; refuses unknown declarations, production shapes and actions)",
+            "extract/precedence (reads parser.y as text; refuses unknown declarations, production shapes and actions; classifies the NOT / BETWEEN / IN productions by their right-hand sides)",
             "extract/astprint (go/ast over ast.go and over the Go code of the actions of parser.y; refuses statement forms outside its subset; conditions are the lexically enclosing ones, early returns appear as return parts)",
             "extract/lalr (go/ast over parser.go / lexer.go / scanner.go; refuses unknown tables, constants, statement forms in actions)",
             "extract/lalr actions: go/types over lib/parser (static type of an assigned expression = dynamic type of the value; implements-relation), the length-guard analysis of index sites, the pinned lists of Ref/LalrActions.lean",
